@@ -86,6 +86,48 @@ func c02Kernel(u, r, q, preempt int, cached bool) {
 	verifrt.Reach("c02.kernel.end")
 }
 
+// c02Late: a pass that starts after the updates have stopped overlaps a straggling pass;
+// when both are done the reporter's most recent value is the last update.
+func c02Late(u, preempt int, cached bool) {
+	g := newGauge(logCachedGauge{})
+	vals := make([]float64, u)
+	for i := range vals {
+		vals[i] = verifrt.Float64("update")
+	}
+	rep := logReporter{}
+	pass := func() {
+		if cached {
+			g.cachedReport()
+		} else {
+			g.report("g", nil, rep)
+		}
+	}
+	var wgUpd, wg sync.WaitGroup
+	verifrt.Explore(preempt)
+	wgUpd.Add(1)
+	wg.Add(3)
+	go func() {
+		defer wg.Done()
+		defer wgUpd.Done()
+		for _, v := range vals {
+			g.Update(v)
+		}
+	}()
+	go func() { defer wg.Done(); pass() }()
+	go func() { defer wg.Done(); wgUpd.Wait(); pass() }()
+	wg.Wait()
+	verifrt.StopExplore()
+	n := verifrt.LogLen()
+	verifrt.Assert("c02.late.some-delivery", n >= 1)
+	if n >= 1 {
+		verifrt.Assert("c02.late.most-recent-delivery-is-the-last-update", verifrt.LogAt(n-1) == fbits(vals[u-1]))
+	}
+	verifrt.Reach("c02.late.end")
+}
+
+func VerifC02LatePass()       { c02Late(2, 2, false) }
+func VerifC02LatePassCached() { c02Late(2, 2, true) }
+
 func VerifC02Kernel()       { c02Kernel(2, 2, 1, 2, false) }
 func VerifC02KernelCached() { c02Kernel(2, 2, 1, 2, true) }
 func VerifC02OnePass()      { c02Kernel(2, 1, 2, 3, false) }
